@@ -255,8 +255,9 @@ pub fn wiring_and_interface_check(u: &Universe, st: &State, bytes: &[u8], define
             let name = &u.pkgs[*pk].name;
             let cands: Vec<&&String> = comp_imports
                 .iter()
-                .filter(|n| {
-                    n.contains(&format!("<{name}>")) || n.contains(&format!("<{name}@"))
+                .filter(|n| match &u.pkgs[*pk].version {
+                    None => n.contains(&format!("<{name}>")),
+                    Some(v) => n.contains(&format!("<{name}@")) && n.contains(v.as_str()),
                 })
                 .collect();
             if cands.len() == 1 {
